@@ -123,8 +123,9 @@ def tlc_validate(ctx, blocks, tag, strict=False):
             e += 1
         rejections.append({"block": bi, "group": b[0], "req": b[s], "outs": b[s + 1:e], "at": k - s - 1, "kind": kind})
         del b[s:e]
-        if rounds >= 6:
-            return None, rejections, shadow
+        if rounds >= 3:
+            # give up on this chunk: report what was rejected; the events before the last rejection were accepted
+            return -sum(1 for e in flat[:hwm] if e["ev"] == "out"), rejections, shadow
 
 
 def describe(group_ev, req_ev):
@@ -251,6 +252,7 @@ def rand_group(rng, nreq):
 def compare_and_judge(ctx, binary, groups, reals, origin, sample_frac, seen_cases):
     """model outcome vs real outcome per case; returns blocks for trace validation (sample + everything not plainly ok)"""
     drift, blocks, nshadow = 0, [], 0
+    classes = ctx.cov.setdefault("input_classes", {})
     for g, real in zip(groups, reals):
         if any(o["err"] for o in real["orders"]):
             raise Broken("BuildEndpointPolicyTree rejected a generated configuration: %s" %
@@ -262,13 +264,21 @@ def compare_and_judge(ctx, binary, groups, reals, origin, sample_frac, seen_case
                 exp, out = g["exp"][oi][ri], real["orders"][oi]["outs"][ri]
                 ctx.cov["evaluations"] += 1
                 same = norm_sel(exp["sel"]) == norm_sel(out["sel"]) and norm_sel(exp["dsel"]) == norm_sel(out["dsel"])
+                for c in exp["cls"] + ([exp["v"]] if exp["v"] != "ok" else []):
+                    classes[c] = classes.get(c, 0) + 1
                 if not same:
                     drift += 1
                     must.add(ri)
+                elif exp["v"] == "shadow":
+                    # TLC judged exactly this input and outcome: the recorded finding class (a sample of these is
+                    # also sent through trace validation below)
+                    nshadow += 1
+                    if nshadow <= 3 or ctx.rng.random() < 0.05:
+                        must.add(ri)
+                    if nshadow == 1:
+                        report_shadow(ctx, {"decls": g["decls"]}, rq, origin)
                 elif exp["v"] != "ok":
                     must.add(ri)          # judged again on the real outcome by trace validation
-                    if exp["v"] == "shadow":
-                        nshadow += 1
                 outs.append((norm_sel(out["sel"]), norm_sel(out["dsel"])))
             if any(o != outs[0] for o in outs):
                 must.add(ri)
@@ -302,7 +312,7 @@ def judge_blocks(ctx, binary, blocks, origin, tag):
     res = parallel(lambda it: tlc_validate(ctx, it[1], "%s%d" % (tag, it[0])), list(enumerate(chunks)), n=6)
     total = 0
     for (n_ok, rejections, shadow), chunk in zip(res, chunks):
-        total += n_ok or 0
+        total += abs(n_ok)
         for bi, e in shadow:
             # the request this out event belongs to
             b = chunk[bi]
@@ -310,9 +320,12 @@ def judge_blocks(ctx, binary, blocks, origin, tag):
             while b[k]["ev"] != "req":
                 k -= 1
             report_shadow(ctx, b[0], b[k], origin)
-        for rej in rejections[:3]:
-            report_rejection(ctx, binary, rej, origin)
-        if rejections and n_ok is None:
+        for rej in rejections[:2]:
+            if len(ctx.violations) < 6:       # each report costs a re-execution and a TLC run; a handful of witnesses is enough
+                report_rejection(ctx, binary, rej, origin)
+            else:
+                ctx.notes.append("further rejection not individually reproduced: %s" % json.dumps(describe(rej["group"], rej["req"]))[:300])
+        if rejections and n_ok < 0:
             ctx.notes.append("%s: more than %d rejected requests in one chunk, remaining events not validated" % (origin, len(rejections)))
     ctx.cov["traces_validated_against_impl"] += total
     return total
@@ -343,7 +356,7 @@ def run(ctx):
     # non-vacuity: the model of the code before the two fixes must be refuted; the shadow class must be in the space.
     # The five TLC runs are independent and run side by side.
     nd = ndecl(2)
-    npairs, ntriples = (100, 200) if not T else (0, 4000)
+    npairs, ntriples = (50, 120) if not T else (0, 4000)
     picks = set()
     while len(picks) < npairs:
         picks.add(tuple(sorted(ctx.rng.sample(range(1, nd + 1), 2))))
@@ -382,6 +395,10 @@ def run(ctx):
     drift, blocks, nshadow = compare_and_judge(ctx, binary, groups, reals, "generated", frac, seen)
     ctx.log("executed %d cases; %d real outcomes differ from the model's; %d in the known shadow class; %d blocks to validate"
             % (ncases, drift, nshadow, len(blocks)))
+    missing = [c for c in ("none", "exact-literal", "param", "wild-tail", "wild-zero", "param+wild", "method-hidden", "overlap", "shadow")
+               if not ctx.cov["input_classes"].get(c)]
+    if missing:
+        raise Broken("generated cases do not cover the input classes %s (vacuous replay)" % missing)
     if drift:
         ctx.cov["model_drift"] = True
         ctx.notes.append("%d real outcomes differ from EndpointPolicyI's (judged by trace validation)" % drift)
@@ -406,7 +423,7 @@ def run(ctx):
     ctx.sample({"kind": "recorded-trace", "events": rblocks[0][:4]})
     n2 = judge_blocks(ctx, binary, rblocks, "random", "rand")
     ctx.log("trace validation: %d real outcomes of random configurations accepted" % n2)
-    if n1 + n2 == 0:
+    if n1 + n2 == 0 and not ctx.violations:
         raise Broken("no real outcome was validated")
 
     # (5) binding self-test (thorough): corrupted recordings must be rejected
